@@ -366,7 +366,15 @@ pub fn gen_expr(src: &mut Src, cfg: &SemCfg, sc: &SemCtx, ty: Ty, depth: usize) 
         },
         Ty::Map => {
             let n = src.pick(4);
-            R::Map((0..n).map(|_| (sub(src, Ty::Any), sub(src, Ty::Any))).collect())
+            let mut entries: Vec<(R, R)> = (0..n).map(|_| (sub(src, Ty::Any), sub(src, Ty::Any))).collect();
+            // a repeated key expression: both entries are evaluated and kept, in source order
+            if !entries.is_empty() && src.chance(1, 4) {
+                let k = entries[src.pick(entries.len())].0.clone();
+                let v = sub(src, Ty::Any);
+                let pos = src.pick(entries.len() + 1);
+                entries.insert(pos, (k, v));
+            }
+            R::Map(entries)
         }
         _ => {
             if cfg.assignments && src.chance(1, 2) {
@@ -411,7 +419,8 @@ fn equalish(src: &mut Src, probe: &R) -> R {
 fn cond(src: &mut Src, cfg: &SemCfg, sc: &SemCtx, ty: Ty, d: usize) -> R {
     let ct = plan(src, cfg, Ty::Bool);
     let c = gen_expr(src, cfg, sc, ct, d);
-    let a = gen_expr(src, cfg, sc, ty, d);
+    // `c ? c : b`: condition and selected branch are two separate subexpressions, written alike
+    let a = if ty == Ty::Bool && src.chance(1, 6) { c.clone() } else { gen_expr(src, cfg, sc, ty, d) };
     // the unselected branch may be anything, including something that would fail
     let bt = if src.chance(1, 3) { Ty::Any } else { ty };
     let b = gen_expr(src, cfg, sc, bt, d);
@@ -618,7 +627,16 @@ pub fn gen_statements(src: &mut Src, cfg: &SemCfg, sc: &SemCtx, max: usize, fail
             4 => {
                 // nested / chained assignments
                 let (a, b) = (target(src), target(src));
-                match src.pick(4) {
+                const ASSIGN_OPS: [&str; 11] = ["=", "+=", "-=", "*=", "/=", "%=", "<<=", ">>=", "&=", "^=", "|="];
+                match src.pick(6) {
+                    4 | 5 => {
+                        // `a OP1 b OP2 e` for every pair of the eleven assignment operators (written
+                        // flat: the chain groups to the right); b is rebound before `a OP1 <none>`
+                        // fails or, for `=`, binds a to the inner assignment's value
+                        let (op1, op2) = (*src.choose(&ASSIGN_OPS), *src.choose(&ASSIGN_OPS));
+                        let e = R::Num(src.choose(&["1", "2", "3", "0"]).to_string());
+                        R::Infix(op1.into(), bx(R::Ref(a)), bx(R::Infix(op2.into(), bx(R::Ref(b)), bx(e))))
+                    }
                     0 => {
                         let e = gen_expr(src, cfg, sc, Ty::Any, 2);
                         R::Infix("=".into(), bx(R::Ref(a)), bx(R::Infix("=".into(), bx(R::Ref(b)), bx(e))))
@@ -636,7 +654,17 @@ pub fn gen_statements(src: &mut Src, cfg: &SemCfg, sc: &SemCtx, max: usize, fail
                     }
                 }
             }
-            5 => match src.pick(10) {
+            5 => match src.pick(12) {
+                10 | 11 => {
+                    // the target is written as a call without arguments of a name that IS callable
+                    // (a context function, a registered function): still not a name
+                    let mut pool: Vec<String> = sc.funcs_of(Ty::Any).into_iter().map(|x| x.0).collect();
+                    pool.push("sum".to_string());
+                    pool.push("mul".to_string());
+                    let f = src.choose(&pool).clone();
+                    let op = *src.choose(&["=", "+=", "-=", "|="]);
+                    R::Infix(op.into(), bx(R::Call(f, vec![])), bx(R::Num(src.choose(&["5", "1", "2"]).to_string())))
+                }
                 7 => R::Call("nofn".into(), vec![R::Infix("=".into(), bx(R::Ref(target(src))), bx(R::Num("1".into())))]),
                 8 => {
                     // the call's own name is rebound by one of its arguments
